@@ -307,6 +307,26 @@ SPECS["C17"] = dict(
            router_part("tls", "TestVerifC17TLS", ["zz_verif_c17_test.go", "zz_verif_c03_test.go"], shards=1, gomaxprocs=4)],
 )
 
+SPECS["C18"] = dict(
+    level="model_checking",
+    engine="E3 evx + real sockets for start-up",
+    state_based=True,
+    technique="exhaustive exploration of event orders with Close inserted at every position on the real transports (virtual time), and enumeration of failing-listener positions against the real run()",
+    claim="For every upstream kind and every sequence up to the bound of exchange starts, late-completing dials, replies, Close (once or twice) and clock steps: Close returns, is idempotent, never panics; "
+          "in-flight exchanges return by their deadline and later ones fail at once; every connection ever produced - including one whose dial completes after Close - is closed; and for every position of a "
+          "failing listener (port in use, missing certificate, unknown protocol, bad address) in a 3-server configuration run() returns an error without panic and releases the ports it had bound.",
+    trusted="scripted dialer / RoundTripper / quic connection; the start-up part uses real loopback sockets and wall-clock waits without timing oracles.",
+    rule="see evidence rule written by the harness",
+    assumptions=[],
+    parts=[dict(name="transports", pkg="internal/upstream/transport", run="TestVerifC18", go="go1.26", env=E3ENV, gomaxprocs=1, engines=E3ENGINES,
+                files=dict(TRANSPORT_COMMON, **{"harness/transport/zz_verif_c18_test.go": "internal/upstream/transport/zz_verif_c18_test.go",
+                                                 "harness/transport/zz_verif_c14_test.go": "internal/upstream/transport/zz_verif_c14_test.go"}),
+                params={"quick": {"DEPTH": 5, "FAULTS": 2}, "thorough": {"DEPTH": 7, "FAULTS": 3}}, budget={"quick": 90, "thorough": 600}),
+           router_part("startup", "TestVerifC18Startup", ["zz_verif_c18_test.go"], shards=1, gomaxprocs=4),
+           dict(name="sockets", pkg="internal/upstream", run="TestVerifC18Sockets", go="go1.26", env=E3ENV, gomaxprocs=4, engines=E3ENGINES, shards=1,
+                files=dict(UPSTREAM_COMMON, **{"harness/upstream/zz_verif_c18sock_test.go": "internal/upstream/zz_verif_c18sock_test.go"}), budget={"quick": 200, "thorough": 200})],
+)
+
 
 # --------------------------------------------------------------------------------------------
 # Properties not (yet) claimed. Kept current: every property without a SPECS entry must be here.
